@@ -117,9 +117,10 @@ class Extraction:
             if not os.path.isfile(src):
                 print("ANALYSIS-BROKEN: anchored source file missing: %s" % src)
                 sys.exit(2)
-            out = os.path.join(self.dir, config + "__" + rel.replace("/", "_") + (".main" if main_only else ".all") + ".json")
-            outs[rel] = out
             fl = flags_for(rel, config, self.gen_inc, self.repo, pre_inc) + (extra_flags or [])
+            tag = ("." + str(abs(hash(tuple(fl))) % 1000000)) if (pre_inc or extra_flags) else ""
+            out = os.path.join(self.dir, config + "__" + rel.replace("/", "_") + (".main" if main_only else ".all") + tag + ".json")
+            outs[rel] = out
             key = (src, config, tuple(fl), main_only)
             if key in cache:
                 outs[rel] = cache[key]
